@@ -277,6 +277,7 @@ func finishEvidence() {
 	run.Assume("Oracle: the flow-control ledger kept by the raw-frame peer (x/net v0.19.0 Framer). An increase of SETTINGS_INITIAL_WINDOW_SIZE / SETTINGS_MAX_FRAME_SIZE counts from the moment the peer sends it, a decrease from the moment the implementation's SETTINGS ACK is read; a PING round trip started after a SETTINGS frame also counts as its acknowledgement (frames are processed in order).")
 	run.Assume("'Delivers all queued data once window becomes available' is decided as bounded progress: the bytes the ledger allows must arrive and the watchdog expires when no frame at all has arrived for 10 s (max_wait_observed_ms = longest gap without a frame while bytes were due, max_settle_duration_ms = longest complete wait); an expiry is re-run once in isolation before it is reported.")
 	run.Assume(fmt.Sprintf("Credit bound: pkg/http2/flow.go inflow.add withholds a WINDOW_UPDATE only while the unsent credit is < inflowMinRefresh (4096) and < the window currently available to the peer, so at a quiescent point with every stream closed the un-returned connection-level credit must be <= %d bytes, independent of the number of streams.", creditBound))
+	run.Assume("Known finding D17 (client transport only): the first DATA frame of a stream after the transport's ACK of a SETTINGS_INITIAL_WINDOW_SIZE / SETTINGS_MAX_FRAME_SIZE decrease may still be sized with the value in force before the decrease (chunk taken under cc.mu before the SETTINGS were applied, written under cc.wmu after the ACK). The ledger reports exactly that shape under the classes T/stream-window-decrease-race and T/max-frame-size-decrease-race; a second frame, a frame beyond the old value, or the same on the server is a hard violation.")
 	run.Assume("Quiescent point for the credit bound = every handler / client goroutine of the batch has returned, every stream of the batch is closed, and one PING round trip has completed (WINDOW_UPDATE is a control frame and precedes the PING ACK).")
 	run.Assume("The transport's connection receive window is fixed at 1 GiB + 65535 on this toolchain (go1.23: no http.HTTP2Config), so connection-level overshoot of the transport is not driven; its stream window (4 MiB) is. SETTINGS-induced window overflow is only asserted for the server (the property text does not name it; the transport's reaction is recorded in transport-settings-overflow-*).")
 	run.Require("data-frames-observed-S", 2000)
